@@ -108,8 +108,10 @@ def act(name, wd):
         # identical state (same seed, same sequence of requests as the first recording made).
         from mc import vharness
         digs = []
-        for period in (2, -1, 1):
-            cfg = dict(M=2, P=4, start_chan=0, num_chans=2, r=3, num_subblocks=3, bpf=2, npol=1, source='ant', bits=8,
+        # (period, windows per block, requested sub-blocks): 3 and 3; 4 and 4 (one window per sub-block: every rounding of
+        # the sub-block length is exact); 8 windows in 3 (a short last sub-block)
+        for period, r_, nsub_ in ((2, 3, 3), (-1, 3, 3), (1, 3, 3), (1, 4, 4), (2, 4, 4), (1, 8, 3)):
+            cfg = dict(M=2, P=4, start_chan=0, num_chans=2, r=r_, num_subblocks=nsub_, bpf=2, npol=1, source='ant', bits=8,
                        sample_rate=1024.0, t_start=0)
 
             def mk():
@@ -132,7 +134,7 @@ def act(name, wd):
                 src2.get_samples(n)
             be2.record(output_file_stem=stem, num_blocks=2, length_mode='num_blocks', load_template=False, verbose=False)
             fresh, _ = _files_digest(stem)
-            digs.append((period, second == fresh))
+            digs.append(((period, r_, nsub_), second == fresh))
         info['second_equals_fresh_backend'] = digs
         return _h(digs, second), info
     if name == 'F1':
@@ -312,7 +314,7 @@ def case_history(c):
     if a == 'R7' and not all(ok for _, ok in last['info'].get('second_equals_fresh_backend', [])):
         viol.append({'site': 'action:R7', 'failure': 'second_recording_differs_from_fresh_backend',
                      'detail': 'the second recording of a backend differs from that of a fresh identically configured backend whose antenna '
-                               'is in the identical state; (stats_calc_period, equal): %s' % last['info'].get('second_equals_fresh_backend')})
+                               'is in the identical state; ((stats_calc_period, windows per block, sub-blocks), equal): %s' % last['info'].get('second_equals_fresh_backend')})
     if a in ('E1', 'E2') and not last['info'].get('same_seed_same_estimate', True):
         viol.append({'site': 'action:' + a, 'failure': 'same_seed_different_estimate',
                      'detail': 'two identically configured filterbanks given the same integer seed return different estimates'})
